@@ -5,7 +5,7 @@ From Coq Require Import Permutation.
 Require Import QV.C13.Model QV.C13.Pure QV.C13.Spec QV.C13.SpecChange QV.C13.Proofs QV.C13.ProofsViews QV.C13.ProofsCache
                QV.C13.ProofsFinal QV.C13.ProofsVolX QV.C13.ProofsEq QV.C13.Hash QV.C13.ProofsHash QV.C13.Heap
                QV.C13.ProofsHeap QV.C13.HeapCC QV.C13.ProofsHeapCC QV.C13.HeapCheck QV.C13.ProofsHeapCheck QV.C13.TEq
-               QV.C13.ProofsTEq QV.C13.ProofsTHash QV.C13.ProofsEqSem.
+               QV.C13.ProofsTEq QV.C13.ProofsTHash QV.C13.ProofsEqSem QV.C13.ProofsEqVal.
 Import ListNotations.
 
 Lemma map_fst_update_vals vals nc : map fst (update_vals vals nc) = map fst vals.
@@ -374,4 +374,12 @@ Lemma typed_eq_sem a b : twf a = true -> tscope_eqb a b = true ->
   (forall x, depends_on_volatile (erase_s a) x = depends_on_volatile (erase_s b) x).
 Proof.
   intros Ha He. apply scope_eqb_sem; [now rewrite twf_erase|now apply tscope_eqb_erase].
+Qed.
+
+Lemma typed_eq_same_mapping a b : twf a = true -> twf b = true -> tscope_eqb a b = true ->
+  ((exists d, denote_scope (erase_s a) = Ok d) <-> (exists d, denote_scope (erase_s b) = Ok d)) /\
+  forall d1 d2, denote_scope (erase_s a) = Ok d1 -> denote_scope (erase_s b) = Ok d2 ->
+    forall x, match lookup d1 x, lookup d2 x with Some p, Some q => p == q | None, None => True | _, _ => False end.
+Proof.
+  intros Ha Hb He. apply scope_eqb_same_mapping; [now rewrite twf_erase|now rewrite twf_erase|now apply tscope_eqb_erase].
 Qed.
